@@ -3,7 +3,7 @@ compared with the Lean model's declaration-level output (`emit`, `schema`) and w
 import copy, hashlib, json, os, random, subprocess
 import pgtcheck as pc
 
-LICENSE = open('/repo/license.txt').read() if os.path.exists('/repo/license.txt') else ''
+LICENSE = open(pc.REPO + '/license.txt').read() if os.path.exists(pc.REPO + '/license.txt') else ''
 
 
 def model_ops(case_path, ops):
